@@ -182,6 +182,12 @@ def shape_text(template, ops):
     elif template == "a IF{b}":                  # block at the very end: the target is just past the end
         a, b = ops
         L += OPS[a] + ["bez R0 END"] + OPS[b] + ["END:"]
+    elif template == "IF{a IF{b}} c":            # nested conditionals whose exits coincide
+        a, b, c = ops
+        L += ["set R2 {r2}", "bez R0 OUTER"] + OPS[a] + ["bez R2 INNER"] + OPS[b] + ["INNER:", "OUTER:"] + OPS[c]
+    elif template == "a IF{b IF{c}}":            # ... and coincide with the end of the subroutine
+        a, b, c = ops
+        L += ["set R2 {r2}"] + OPS[a] + ["bez R0 OUTER"] + OPS[b] + ["bez R2 INNER"] + OPS[c] + ["INNER:", "OUTER:"]
     elif template == "IF{a} ELSE{b} c":
         a, b, c = ops
         L += ["bez R0 ELSE"] + OPS[a] + ["jmp DONE", "ELSE:"] + OPS[b] + ["DONE:"] + OPS[c]
@@ -324,6 +330,9 @@ def build():
             r = ctx.int("r", -3, 3) if "{r}" in body else None
             if r is not None:
                 vals["r"] = 0          # placeholder: replaced by the symbolic value after assembly
+            r2 = ctx.int("r2", -3, 3) if "{r2}" in body else None
+            if r2 is not None:
+                vals["r2"] = 0
             debug = ctx.choice("debug", [False, True])
             text = _text(body, **vals)
             van = parse_text_subroutine(text, flavour=VanillaFlavour())
@@ -334,6 +343,13 @@ def build():
                         if isinstance(ins, core.SetInstruction) and ins.reg.name.name == "R" and ins.reg.index == 0 and ins.imm.value == 0:
                             from netqasm.lang.operand import Immediate
                             ins.imm = Immediate(r)
+                            break
+            if r2 is not None:
+                for sub in (van, src):
+                    for ins in sub.instructions:
+                        if isinstance(ins, core.SetInstruction) and ins.reg.name.name == "R" and ins.reg.index == 2 and ins.imm.value == 0:
+                            from netqasm.lang.operand import Immediate
+                            ins.imm = Immediate(r2)
                             break
             if sym_n is not None:
                 from netqasm.lang.operand import Immediate
@@ -414,7 +430,7 @@ def build():
             body = shape_text(template, [first] + rest)
             return mk(f"{template} / {first}", body)(ctx)
         return f
-    for template, arity in (("a IF{b} c", 3), ("a LOOP2{b} c", 3), ("a IF{b}", 2), ("IF{a} ELSE{b} c", 3)):
+    for template, arity in (("a IF{b} c", 3), ("a LOOP2{b} c", 3), ("a IF{b}", 2), ("IF{a} ELSE{b} c", 3), ("IF{a IF{b}} c", 3), ("a IF{b IF{c}}", 3)):
         for first in OPS:
             quick = first in QUICK_OPS
             R.add(f"shapes[{template}][a={first}][quick alphabet]", kind="exact", samples=4, max_paths=4000, thorough_only=not quick,
